@@ -288,6 +288,7 @@ PF_HOSTILE = gen.Profile(
     dated_containers=True,
     unaligned_pins=True,
     milestones=True,
+    start_tod=True,
     weeks=(1, 6),
     max_slots=20,
     glob_leaves=True,
@@ -299,7 +300,7 @@ HOSTILE_LINES = [
     "start 2019-01-01", "start 2031-06-01", "end 2019-01-01", "end 2031-06-01", "end 2025-01-07-10:00",
     "limits { dailymax 0h }", "limits { weeklymax 0.1h }", "allocate nosuchres", "responsible r0",
     "allocate r0 { alternative r1 }", "allocate r1", "allocate r0, r1 { alternative r2 select minloaded }", "allocate r0 { persistent }",
-    "effort 4h", "start 2025-01-09 end 2025-01-07", "milestone start 2025-01-08-08:01 end 2025-01-07-10:00", "end 2025-01-07 start 2025-01-07-00:01", "duration 0.5h", "start 2025-01-06-00:07", "end 2025-01-06",
+    "effort 4h", "start ${nosuchmacro}", "end ${nosuchmacro}", "start 2025-01-09 end 2025-01-07", "milestone start 2025-01-08-08:01 end 2025-01-07-10:00", "end 2025-01-07 start 2025-01-07-00:01", "duration 0.5h", "start 2025-01-06-00:07", "end 2025-01-06",
 ]
 BAD_ZONES = ["Europe/", "Europe//Berlin", "/Europe/Berlin", "../UTC", "zone.tab", "", " ", "Mars/Olympus", "UTC+25", "europe/berlin", "Europe/Berlin\\", "E" * 300]
 HOSTILE_DEP_OPTS = ["gaplength 2d", "gaplength 500h", "maxgapduration 1h", "gapduration 2000h", "onend", "gapduration 0min", "gaplength 0h", "gapduration 99999999h",
@@ -358,7 +359,7 @@ def fixtures():
 
 
 KEYWORDS = ["task", "resource", "depends", "precedes", "allocate", "effort", "limits", "{", "}", "}}", "{{", "project", "macro x [", "]", "${x}", "${", "!",
-            "start", "end", "2025-02-30", "0000-01-01", "9999-12-31", "2025-13-01-25:61", "-1", "1e9", "0", "999999999999", "\"", "'", "#", "/*", "*/", "scenario",
+            "start", "end", "2025-02-30", "0000-01-01", "9999-12-31", "9995-01-01", "${nosuch}", "2025-13-01-25:61", "-1", "1e9", "0", "999999999999", "\"", "'", "#", "/*", "*/", "scenario",
             "shift", "workinghours", "mon - fri", "24:00 - 25:00", "gapduration", "onstart", "dailymax", "taskreport", "columns", "formats", "leaves", "vacation", ",", ":", "."]
 
 
@@ -414,7 +415,7 @@ def corrupted_texts(draw):
 PF_NUM = gen.Profile(resolutions=[15, 30, 60], min_tasks=2, max_tasks=6, max_res=3, depth=3, deps=0.7, gaps=True, subslot=True, calendars=True, limits=True,
                      task_limits=True, res_groups=True, alap_project=True, alap_task=True, scenarios=True, weeks=(1, 4), max_slots=8, container_deps=True,
                      priorities=True, rates=True, leaves=True)
-HOSTILE_NUMBERS = ["0", "-1", "99999999", "999999999999", "1e9", "0.0000001", "1000000", "00", "2147483648", "9" * 25, "0.5", "1.5"]
+HOSTILE_NUMBERS = ["0", "-1", "99999999", "999999999999", "1e9", "0.0000001", "1000000", "00", "2147483648", "9" * 25, "9" * 400, "0.5", "1.5"]
 _NUM_RE = None
 
 
